@@ -16,7 +16,7 @@ const CORE = ALL.filter((it) => (it.d ? CORE_D.includes(it.d) : CORE_K.includes(
 const MINI = ALL.filter((it) => (it.d ? ['assignSame', 'arrowNoJsx', 'userSlot', 'selfAssign', 'fnNoJsx'].includes(it.d) : ['stmt', 'arrowExpr', 'field', 'defparam', 'loopBare'].includes(it.k) && ['identChild', 'callChild', 'frag'].includes(it.l)));
 
 // items that carry element-level state (used as second components of pairs in option-specific spaces)
-const STATE_D = ALL.filter((it) => it.d && ['memberNativeTag', 'nativeChildren', 'typeCheckboxNoDir', 'typeDynNoDir', 'tplChildComp', 'tplChildFrag', 'tplChildEl', 'singleChildEl', 'nestedSingle', 'attrBareJsx', 'dirThenBareJsx'].includes(it.d));
+const STATE_D = ALL.filter((it) => it.d && ['memberNativeTag', 'nativeChildren', 'typeCheckboxNoDir', 'typeDynNoDir', 'tplChildComp', 'tplChildFrag', 'tplChildEl', 'singleChildEl', 'nestedSingle', 'attrBareJsx', 'dirThenBareJsx', 'selfAssignFnObs', 'onOnly'].includes(it.d));
 
 function onceOk(items) {
   const seen = new Set();
